@@ -105,6 +105,7 @@ def cases(ctx):
             o["bins"] = rng.choice([5, 10, 30, "edges"])
         # the colour-mapped quantity starts at exactly 0 (count-like data), and explicit colour limits incl. 0
         c["zero_floor"] = rng.random() < 0.3
+        c["dup_z"] = rng.random() < 0.15
         mapped = ("heatmap" in kind and not kind.startswith("auto")) or kind == "lineplot_c" or \
             (kind in ("scatter", "scatter_grid") and c["dseed"] % 3 == 0) or \
             (kind in ("lineplot", "lineplot_grid", "scatter", "scatter_grid") and o.get("colors") is True and c["ztype"] != "str")
@@ -154,6 +155,8 @@ def build(case):
     if o.get("colormap_log"):
         ztype = "int"
     z = _axis(rng, nz, ztype, case["zorder"], case["uniform"], lo=0.0 if case.get("zero_floor") and not o.get("colormap_log") else 1.0)
+    if case.get("dup_z") and nz >= 3 and kind in ("lineplot", "scatter", "lineplot_grid", "scatter_grid"):
+        z[nz - 2] = z[0]            # two entries along z carry the same label (two runs concatenated): each is its own series
     coords = {"x": x, "z": z}
     dims = ["z", "x"]
     if grid:
@@ -262,10 +265,10 @@ def finite_pairs(*arrs):
     return [a[m] for a in arrs]
 
 
-def series_of(ds, xname, yname, zval, extra=()):
+def series_of(ds, xname, yname, zval, extra=(), zidx=None):
     """Independent extraction of one series: flattened (x, y, extras...) with x and y finite."""
     import xarray as xr
-    sub = ds if zval is None else ds.sel(z=zval)
+    sub = ds if zval is None else (ds.isel(z=zidx) if zidx is not None else ds.sel(z=zval))
     das = [sub[xname], sub[yname]] + [sub[e] for e in extra]
     b = xr.broadcast(*das)
     flat = [np.asarray(a.values, dtype=float).ravel() for a in b]
@@ -350,7 +353,7 @@ def judge_line_axes(ctx, ax, ds, case, o, xname, ynames, zvals, kind, labels, wa
         yname = ynames[i] if multivar else ynames[0]
         zval = None if (multivar or zvals == [None]) else zvals[i]
         extra = [e for e in errs] + (["cv"] if (kind == "scatter" and "cv" in ds and o.get("_c")) else [])
-        exp = series_of(ds, xname, yname, zval, extra)
+        exp = series_of(ds, xname, yname, zval, extra, zidx=(i if (zval is not None and len(set(map(repr, zvals))) < len(zvals)) else None))
         art = arts[i]
         if kind == "scatter":
             off = np.asarray(art.get_offsets(), dtype=float).reshape(-1, 2)
